@@ -778,6 +778,21 @@ func realScenario(id int, rng *rand.Rand, probe string, baseSocks map[int]bool) 
 	}
 
 	time.Sleep(tShut - since())
+	switch probe { // the probes need their precondition, not a lucky timing
+	case "r4":
+		for dl := time.Now().Add(3 * time.Second); atomic.LoadInt32(&running) == 0 && time.Now().Before(dl); {
+			time.Sleep(time.Millisecond)
+		}
+	case "r2":
+		for dl := time.Now().Add(3 * time.Second); time.Now().Before(dl); time.Sleep(time.Millisecond) {
+			mu.Lock()
+			k := len(conns)
+			mu.Unlock()
+			if k > 0 {
+				break
+			}
+		}
+	}
 	ctx, cancel := context.WithTimeout(context.Background(), deadline)
 	t0 := since()
 	var shErr error
